@@ -76,6 +76,20 @@ def cases(ctx):
         if rng.random() < 0.2:
             c['micro'] = rng.choice([True, False])
         out.append(c)
+    # requested mode 'kanji' for TEXT: Latin-1 text is encoded with ISO 8859-1, not Shift JIS, so the bytes need not be valid
+    # double-byte characters although every character "was encoded by a codec": lead bytes in 81..9F / E0..EB with every kind of trail
+    r2 = __import__('random').Random(ctx.seed * 11 + 7)
+    for lead in (0x81, 0x93, 0x9f, 0xe0, 0xea, 0xeb, 0xa0, 0xec):
+        for trail in (0x30, 0x3f, 0x40, 0x7e, 0x7f, 0x80, 0xfc, 0xfd, 0xff, 0xa9):
+            for rep in (1, 2):
+                out.append({'content': (chr(lead) + chr(trail)) * rep, 'mode': 'kanji', 'mask': 0, 'boost_error': False})
+                out.append({'content': bytes([lead, trail]) * rep, 'mode': 'kanji', 'mask': 0, 'boost_error': False})
+    for txt in ('\u00ea0', '\u0093\u007f', '\u00e9\u00ff', '\u00ea\u00a9\u00ea0'):
+        for mode in ('kanji', 'hanzi', 'byte', None):
+            c = {'content': txt, 'mask': 0, 'boost_error': False}
+            if mode:
+                c['mode'] = mode
+            out.append(c)
     # GB2312 byte pairs incl. invalid trail bytes under hanzi
     for _ in range(200 if ctx.thorough else 60):
         b = bytes([rng.choice([0xa1, 0xaa, 0xab, 0xb0, 0xfa, 0xfb]), rng.choice([0xa0, 0xa1, 0xfe, 0xff, 0x00, 0x60])])
